@@ -57,7 +57,7 @@ def apply_noise(data, noise):
     """Damage `data` (bytes) as described by the plan entry `noise` (dict) and return the new bytes.
 
     kinds: flip (pos, bit) | insert (pos, bytes) | delete (pos, n) | truncate (n: drop the last n bytes)
-           | replace (pos, byte)
+           | replace (pos, byte) | lenient (pos: index among the digit characters, byte)
     Positions are taken modulo the length, so that a plan entry stays meaningful while the minimiser
     shortens frames.
     """
@@ -78,6 +78,14 @@ def apply_noise(data, noise):
         del b[p:p + max(1, noise["n"])]
     elif k == "truncate":
         del b[max(0, n - max(1, noise["n"])):]
+    elif k == "lenient":
+        # one digit of a number field becomes a character that lenient parsers swallow (int(' 1'), int('+3'),
+        # bytes.fromhex('0 1')): the frame keeps its length and its framing, only the field is no longer well formed
+        digits = [i for i, c in enumerate(b) if c in b"0123456789ABCDEFabcdef"]
+        if digits:
+            b[digits[noise["pos"] % len(digits)]] = noise["byte"] & 0xff
+        else:
+            b[noise["pos"] % n] = noise["byte"] & 0xff
     else:
         raise AssertionError("unknown noise kind %r" % (k,))
     return bytes(b)
@@ -124,6 +132,8 @@ class FastNeuronBoard:
         self.sw_cfg = {i: ["00", "00", "00"] for i in range(104)}      # mode, debounce close, debounce open
         self.drv_cfg = {i: ["00"] * 8 for i in range(48)}              # trigger, switch, mode, p1..p5
         self.closed = [0] * 112                # raw switch bits as SA: reports them
+        self.last_snapshot = [0] * 112         # what the most recent SA: frame said
+        self.queries = []                      # futures of SA: queries the workload started (kept alive)
         # policy(cmd, reply) -> list of (reply bytes, delay); default: one reply, at once
         self.policy = policy or (lambda cmd, reply: [(reply, 0.0)])
         self.mute = False                      # True: swallow commands without answering (replay runs)
@@ -188,6 +198,7 @@ class FastNeuronBoard:
         return b"XX:F\r"
 
     def sa_frame(self):
+        self.last_snapshot = list(self.closed)
         raw = bytearray(14)
         for i, v in enumerate(self.closed):
             if v:
@@ -202,6 +213,43 @@ class FastNeuronBoard:
 
 
 FAST_SWITCH_RE = re.compile(r"([-/])L:([0-9A-Fa-f]{2})")
+
+
+FAST_SA_RE = re.compile(r"SA:0E,([0-9A-Fa-f]{28})")
+
+
+def fast_classify_sa(line):
+    """Classify a line of a Neuron NET->host stream with respect to the full switch report 'SA:0E,<14 bytes hex>'.
+
+    returns ("must", [bit of switch 0..111])  exactly one well-formed report (count byte 0E, 28 hex digits)
+            ("may", bits)                     noise glued in front of a well-formed report
+            ("mustnot", None|bits)            a line that starts with SA: and is not well formed (bits: a well-formed
+                                              report is glued to its end - decoding that one is tolerated)
+            (None, None)                      the line has nothing to do with SA:
+    """
+    if b"SA:" not in line:
+        return None, None
+    try:
+        s = line.decode("ascii")
+    except UnicodeDecodeError:
+        s = None
+    m = FAST_SA_RE.fullmatch(s) if s is not None else None
+    cls = "must"
+    if m is None:
+        try:
+            m = FAST_SA_RE.fullmatch(line[-34:].decode("ascii")) if len(line) > 34 else None
+        except UnicodeDecodeError:
+            m = None
+        cls = "may"
+    if m is None:
+        return ("mustnot", None) if line.startswith(b"SA:") else (None, None)
+    raw = bytes.fromhex(m.group(1))
+    bits = [(raw[i // 8] >> (i % 8)) & 1 for i in range(112)]
+    if cls == "may" and line.startswith(b"SA:"):
+        # a damaged SA: line with a well-formed report glued to its end: the line reaches the SA: processor;
+        # it is malformed, but the relaxation "may" allows decoding the glued report (bits given)
+        return "mustnot", bits
+    return cls, bits
 
 
 def fast_reference_lines(stream):
